@@ -11,12 +11,14 @@ Open Scope N_scope.
 Inductive seg :=
 | SLit (h : bytes)                        (* these bytes, as they are *)
 | SDyn (t : token)                        (* html-escaped value of the Go expression [formatted_code t] *)
+| SDynQ (t : token)                       (* the same, followed by the double quote that closes an attribute value *)
 | SBlock (stmt : bytes) (body : list seg). (* the Go statement [stmt { body }]: body rendered when / as often as Go runs it *)
 
 (** the meaning of a segment list under a valuation of the Go expressions *)
 (** (blocks have no meaning without Go's semantics of the statement: they contribute nothing here) *)
 Definition eval_segs (rho : bytes -> bytes) (l : list seg) : bytes :=
-  List.concat (map (fun s => match s with SLit h => h | SDyn t => html_escape (rho (formatted_code t)) | SBlock _ _ => [] end) l).
+  List.concat (map (fun s => match s with SLit h => h | SDyn t => html_escape (rho (formatted_code t))
+                             | SDynQ t => html_escape (rho (formatted_code t)) ++ [34] | SBlock _ _ => [] end) l).
 
 (** [ind] is the indentation of the Go code at this point of the template body *)
 Definition Lo (ind : nat) : wlocal := mkWL ind true true false.     (* a string literal is open *)
@@ -34,6 +36,10 @@ Definition dyn_code (ind : nat) (v : bytes) (t : token) : bytes :=
 
 (** [denotes m m' code segs]: [code], starting with a literal open ([m]) or not and ending so ([m']), is a
     well-formed run of literal chunks and dynamic blocks that stands for [segs] *)
+(** the code of a dynamic attribute value: the escaped value and the closing quote in one write *)
+Definition attr_dyn_code (ind : nat) (t : token) : bytes :=
+  tabs ind ++ write_string_open ++ lit "goht.EscapeString(" ++ formatted_code t ++ lit ")+""\""""); __err != nil { return }" ++ [10].
+
 Definition block_code (ind : nat) (stmt body_code : bytes) (mb : bool) : bytes :=
   tabs ind ++ stmt ++ lit " {" ++ [10] ++ body_code ++ (if mb then close_text (Lo (S ind)) else []) ++ tabs ind ++ lit "}" ++ [10].
 
@@ -43,6 +49,7 @@ Inductive denotes : nat -> bool -> bool -> bytes -> list seg -> Prop :=
 | d_open ind rest segs m' : denotes ind true m' rest segs -> denotes ind false m' (opener ind ++ rest) segs
 | d_close ind rest segs m' : denotes ind false m' rest segs -> denotes ind true m' (close_text (Lo ind) ++ rest) segs
 | d_dyn ind v t rest segs m' : denotes ind false m' rest segs -> denotes ind false m' (dyn_code ind v t ++ rest) (SDyn t :: segs)
+| d_attr ind t rest segs m' : denotes ind false m' rest segs -> denotes ind false m' (attr_dyn_code ind t ++ rest) (SDynQ t :: segs)
 | d_block ind stmt body_code body mb rest segs m' :
     denotes (S ind) false mb body_code body -> denotes ind false m' rest segs ->
     denotes ind false m' (block_code ind stmt body_code mb ++ rest) (SBlock stmt body :: segs).
@@ -51,12 +58,13 @@ Lemma denotes_app ind m1 m2 m3 c1 s1 c2 s2 : denotes ind m1 m2 c1 s1 -> denotes 
 Proof.
   intro H1. revert m3 c2 s2.
   induction H1 as [ind m|ind p h rest segs m' Hr _ IH|ind rest segs m' _ IH|ind rest segs m' _ IH|ind v t rest segs m' _ IH
-                  |ind stmt bc body mb rest segs m' Hb _ _ IH]; intros m3 c2 s2 H2; cbn [app].
+                  |ind t rest segs m' _ IH|ind stmt bc body mb rest segs m' Hb _ _ IH]; intros m3 c2 s2 H2; cbn [app].
   - exact H2.
   - rewrite <- app_assoc. apply d_lit; [exact Hr|apply IH; exact H2].
   - rewrite <- app_assoc. apply d_open. apply IH; exact H2.
   - rewrite <- app_assoc. apply d_close. apply IH; exact H2.
   - rewrite <- app_assoc. apply d_dyn. apply IH; exact H2.
+  - rewrite <- app_assoc. apply d_attr. apply IH; exact H2.
   - rewrite <- app_assoc. apply d_block; [exact Hb|apply IH; exact H2].
 Qed.
 
@@ -206,12 +214,37 @@ Definition block_stmt (o : token) : Prop :=
   has_prefix (lit "}") code = false /\
   has_prefix (lit "}") (t_lit o) = false /\ any_prefix c_elseStatements (t_lit o) = false.
 
+(** attributes: bare, with a static value, with a dynamic value `name: #{expr}`, or conditional `name?: #{cond}` *)
+Definition dyn_attr (a : attribute) : Prop :=
+  Forall plain (a_name a) /\
+  (a_value a = [] \/ (a_bool a = false /\ a_dyn a = false /\ bytes_ok (a_value a)) \/
+   (a_bool a = false /\ a_dyn a = true) \/ a_bool a = true).
+
+Definition attr_segs (a : attribute) : list seg :=
+  match a_value a with
+  | [] => [SLit (lit " " ++ a_name a)]
+  | v =>
+    if a_bool a then [SBlock (lit "if " ++ v) [SLit (lit " " ++ a_name a)]]
+    else if a_dyn a then [SLit (lit " " ++ a_name a ++ lit "=" ++ [34]); SDynQ (a_origin a)]
+    else [SLit (lit " " ++ a_name a ++ lit "=" ++ [34]); SLit (html_escape v ++ [34])]
+  end.
+
+Definition dyn_elem (d : elem) : Prop :=
+  bytes_ok (e_tag d) /\ bytes_ok (e_id d) /\ Forall static_class (e_classes d) /\ e_objref d = None /\
+  omap_get (e_attrs d) (lit "class") = None /\ Forall (fun kv => dyn_attr (snd kv)) (e_attrs d) /\
+  e_attrs_cmd d = [] /\ e_nuke_inner d = false /\ e_nuke_outer d = false.
+
+Definition id_class_html (d : elem) : bytes :=
+  match e_id d with [] => [] | i => lit " id=" ++ [34] ++ html_escape i ++ [34] end ++ class_html (e_classes d).
+
+Definition attrs_segs (d : elem) : list seg := List.concat (map (fun kv => attr_segs (snd kv)) (e_attrs d)).
+
 Fixpoint dyn_node (n : node) : Prop :=
   match n with
   | Node k ch =>
     let all := (fix all (l : list node) : Prop := match l with [] => True | c :: r => dyn_node c /\ all r end) in
     match k with
-    | KElement _ _ d => static_elem d /\ all ch
+    | KElement _ _ d => dyn_elem d /\ all ch
     | KText o => dyn_text o
     | KScript _ => True
     | KNewLine _ => True
@@ -222,17 +255,13 @@ Fixpoint dyn_node (n : node) : Prop :=
     end
   end.
 
-Definition attrs_html (d : elem) : bytes :=
-  match e_id d with [] => [] | i => lit " id=" ++ [34] ++ html_escape i ++ [34] end ++
-  class_html (e_classes d) ++ List.concat (map (fun kv => attr_html (snd kv)) (e_attrs d)).
-
 Fixpoint segs_of (n : node) : list seg :=
   match n with
   | Node k ch =>
     let kids := (fix kids (l : list node) : list seg := match l with [] => [] | c :: r => segs_of c ++ kids r end) in
     match k with
     | KElement _ _ d =>
-      [SLit (lit "<" ++ e_tag d); SLit (attrs_html d); SLit (lit ">")] ++
+      [SLit (lit "<" ++ e_tag d); SLit (id_class_html d)] ++ attrs_segs d ++ [SLit (lit ">")] ++
       (if e_selfclosing d then []
        else (if only_newline ch then [] else kids ch) ++ [SLit (lit "</" ++ e_tag d ++ lit ">"); SLit [10]])
     | KText o => if toktype_eqb (t_typ o) TDynamicText then [SDyn o] else [SLit (text_html o)]
@@ -269,6 +298,86 @@ Qed.
 Lemma next_ok_hd rest : Forall dyn_node rest -> next_ok (hd_error rest).
 Proof. intro H. destruct rest as [|n r]; [exact I|]. inversion H; subst. apply next_ok_dyn. assumption. Qed.
 
+(** attributes, from either mode *)
+Lemma render_attrs_run sm ind (l : list (bytes * attribute)) : forall m st,
+  Forall (fun kv => dyn_attr (snd kv)) l -> MS ind m st ->
+  exists m', Run ind m st m' (render_attrs sm l st) (List.concat (map (fun kv => attr_segs (snd kv)) l)).
+Proof.
+  induction l as [|[k a] rest IH]; intros m st Hall H; [exists m; apply Run_refl; exact H|].
+  inversion Hall as [|? ? [Hname Hval] Hrest]; subst. cbn [snd] in *. cbn [render_attrs map List.concat]. cbv zeta.
+  destruct (chunk_attr_name_ok (a_name a) Hname) as [Rn Ro].
+  match goal with |- exists m', Run ind m st m' (render_attrs sm rest ?x) _ => set (s1 := x) end.
+  assert (Hone : exists m1, Run ind m st m1 s1 (attr_segs a)).
+  { subst s1. unfold attr_segs. destruct (a_value a) as [|v0 v] eqn:Ev.
+    - exists true. apply chunk_run; assumption.
+    - destruct (a_bool a) eqn:Eb.
+      + (* conditional attribute *)
+        destruct (tw_wri_run ind m (lit "if ") st H) as [M1 T1]. set (st1 := tw_wri (lit "if ") st) in *.
+        assert (Q1 : quiet st1) by (destruct M1 as [A B]; split; [exact A|rewrite B; reflexivity]).
+        destruct (tw_write_add_quiet sm (v0 :: v) (a_origin a) st1 Q1) as [Q3 L3]. pose proof (tw_write_add_txt sm (v0 :: v) (a_origin a) st1 Q1) as T3.
+        set (st3 := tw_write_add sm (v0 :: v) (a_origin a) st1) in *.
+        destruct (tw_wr_quiet (lit " {" ++ [10]) st3 Q3) as [Q4 L4]. pose proof (tw_wr_txt (lit " {" ++ [10]) st3 Q3) as T4.
+        set (st4 := tw_wr (lit " {" ++ [10]) st3) in *.
+        assert (E4 : snd st4 = Lc ind) by (rewrite L4, L3; exact (proj2 M1)).
+        assert (Mb : MS (S ind) false (set_local st4 (indent_local (snd st4) 1))).
+        { split; [exact (proj1 Q4)|]. cbn [set_local snd]. rewrite E4. unfold indent_local, Lc, loc_of. cbn [wl_indent wl_static wl_errh wl_unesc]. rewrite Nat.add_1_r. reflexivity. }
+        destruct (chunk_run (S ind) false _ _ _ Mb Rn) as [M5 (body_code & T5 & D5)]. rewrite txt_set_local in T5.
+        set (st5 := tw_write_string_literal (chunk_attr_name (a_name a)) (set_local st4 (indent_local (snd st4) 1))) in *.
+        clearbody st5. clearbody st4. clearbody st3. clearbody st1.
+        destruct (close_from_open (S ind) st5 M5) as [[E6 _] T6].
+        assert (E6' : tw_close st5 = close_string_literal st5) by (unfold tw_close, close_if_static; rewrite (proj2 M5); reflexivity).
+        assert (M6 : MS ind false (set_local (tw_close st5) (snd st4))) by (split; [rewrite E6'; cbn [set_local fst]; exact E6|cbn [set_local snd]; exact E4]).
+        destruct (tw_wri_run ind false (lit "}" ++ [10]) _ M6) as [M7 T7].
+        exists false. split; [exact M7|].
+        exists ((if m then close_text (Lo ind) else []) ++ block_code ind (lit "if " ++ v0 :: v) body_code true). split.
+        * rewrite T7, txt_set_local, E6', T6, T5, T4, T3, T1. unfold block_code. cbn [app]. rewrite <- !app_assoc. reflexivity.
+        * assert (Db : denotes ind false false (block_code ind (lit "if " ++ v0 :: v) body_code true) [SBlock (lit "if " ++ v0 :: v) [SLit (lit " " ++ a_name a)]]).
+          { rewrite <- (app_nil_r (block_code _ _ _ _)). apply d_block; [exact D5|constructor]. }
+          destruct m; [apply d_close; exact Db|exact Db].
+      + destruct Hval as [Hv|[(_ & Hd & Hok)|[(_ & Hd)|Hb]]]; try discriminate; try congruence.
+        * (* static value *)
+          rewrite Hd. pose proof (chunk_run ind m _ _ st H Ro) as R1.
+          destruct (chunk_attr_value_ok (v0 :: v) Hok) as [Rv _].
+          pose proof (chunk_run ind true _ _ _ (proj1 R1) Rv) as R2.
+          exists true. change [SLit (lit " " ++ a_name a ++ lit "=" ++ [34]); SLit (html_escape (v0 :: v) ++ [34])]
+            with ([SLit (lit " " ++ a_name a ++ lit "=" ++ [34])] ++ [SLit (html_escape (v0 :: v) ++ [34])]).
+          eapply Run_trans; eassumption.
+        * (* dynamic value *)
+          rewrite Hd. pose proof (chunk_run ind m _ _ st H Ro) as R1.
+          set (st1 := tw_write_string_literal (chunk_attr_open (a_name a)) st) in *.
+          destruct (tw_wri_run ind true (write_string_open ++ lit "goht.EscapeString(") st1 (proj1 R1)) as [M2 T2].
+          set (st2 := tw_wri (write_string_open ++ lit "goht.EscapeString(") st1) in *.
+          assert (Q2 : quiet st2) by (destruct M2 as [A B]; split; [exact A|rewrite B; reflexivity]).
+          destruct (write_formatted_text_txt sm (a_origin a) st2 Q2) as (Q3 & L3 & T3).
+          destruct (tw_wr_quiet (lit ")+""\""""); __err != nil { return }" ++ [10]) _ Q3) as [Q4 L4].
+          pose proof (tw_wr_txt (lit ")+""\""""); __err != nil { return }" ++ [10]) _ Q3) as T4.
+          exists false.
+          change [SLit (lit " " ++ a_name a ++ lit "=" ++ [34]); SDynQ (a_origin a)] with ([SLit (lit " " ++ a_name a ++ lit "=" ++ [34])] ++ [SDynQ (a_origin a)]).
+          eapply Run_trans; [exact R1|].
+          split; [split; [exact (proj1 Q4)|rewrite L4, L3; exact (proj2 M2)]|].
+          exists (close_text (Lo ind) ++ attr_dyn_code ind (a_origin a)). split.
+          -- rewrite T4, T3, T2. unfold attr_dyn_code. rewrite <- !app_assoc. reflexivity.
+          -- apply d_close. rewrite <- (app_nil_r (attr_dyn_code _ _)). apply d_attr. constructor. }
+  destruct Hone as (m1 & R1). clearbody s1.
+  destruct (IH m1 s1 Hrest (proj1 R1)) as (m2 & R2). exists m2. eapply Run_trans; [exact R1|exact R2].
+Qed.
+
+Lemma render_attributes_run sm ind d st : dyn_elem d -> MS ind true st ->
+  exists m', Run ind true st m' (render_attributes sm d st) (SLit (id_class_html d) :: attrs_segs d).
+Proof.
+  intros (Htag & Hid & Hcl & Hobj & Hca & Hat & Hcmd & _) H. unfold render_attributes. cbv zeta. rewrite Hobj, Hca, Hcmd.
+  set (st2 := match e_id d with [] => st | _ => _ end).
+  assert (H2 : LS (Lo ind) st2 /\ Step st st2 (match e_id d with [] => [] | i => lit " id=" ++ [34] ++ html_escape i ++ [34] end)).
+  { subst st2. destruct (e_id d) as [|i0 i] eqn:Ei; [split; [exact H|apply Step_refl]|].
+    destruct (chunk_id_ok (i0 :: i) Hid) as [Ri _]. apply (chunk_step (Lo ind) eq_refl); assumption. }
+  destruct H2 as [L2 S2]. clearbody st2.
+  destruct (render_class_static (Lo ind) eq_refl sm (e_classes d) st2 Hcl L2) as [L3 S3].
+  pose proof (step_run ind st _ _ H L3 (Step_trans _ _ _ _ _ S2 S3)) as R3. fold (id_class_html d) in R3.
+  destruct (render_attrs_run sm ind (e_attrs d) true _ Hat L3) as (m' & R4).
+  exists m'. change (SLit (id_class_html d) :: attrs_segs d) with ([SLit (id_class_html d)] ++ attrs_segs d).
+  eapply Run_trans; eassumption.
+Qed.
+
 Definition node_run_at (n : node) : Prop :=
   dyn_node n -> forall ind sm next m st, next_ok next -> MS ind m st ->
   exists m', Run ind m st m' (fst (emit_node sm n next false st)) (segs_of n) /\ snd (emit_node sm n next false st) = false.
@@ -297,15 +406,17 @@ Proof.
     destruct (chunk_tag_ok (e_tag d) Htag) as [Rto Rtc].
     pose proof (chunk_run ind m _ _ st H Rto) as R1.
     set (st1 := tw_write_string_literal (chunk_tag_open (e_tag d)) st) in *.
-    destruct (render_attributes_static (Lo ind) eq_refl sm d st1 Hd (proj1 R1)) as [L2 S2].
-    pose proof (step_run ind st1 _ _ (proj1 R1) L2 S2) as R2. fold (attrs_html d) in R2.
+    destruct (render_attributes_run sm ind d st1 Hd (proj1 R1)) as (m2 & R2).
     set (st2 := render_attributes sm d st1) in *.
     assert (Rgt : reads_as (lit ">") (lit ">")) by (apply reads_as_plain; repeat constructor; cbn; try lia; discriminate).
-    pose proof (chunk_run ind true _ _ st2 L2 Rgt) as R3.
+    pose proof (chunk_run ind m2 _ _ st2 (proj1 R2) Rgt) as R3.
     set (st4 := tw_write_string_literal (lit ">") st2) in *.
-    assert (R4 : Run ind m st true st4 [SLit (lit "<" ++ e_tag d); SLit (attrs_html d); SLit (lit ">")]).
-    { change [SLit (lit "<" ++ e_tag d); SLit (attrs_html d); SLit (lit ">")] with ([SLit (lit "<" ++ e_tag d)] ++ [SLit (attrs_html d)] ++ [SLit (lit ">")]).
+    assert (R4 : Run ind m st true st4 ([SLit (lit "<" ++ e_tag d); SLit (id_class_html d)] ++ attrs_segs d ++ [SLit (lit ">")])).
+    { change ([SLit (lit "<" ++ e_tag d); SLit (id_class_html d)] ++ attrs_segs d ++ [SLit (lit ">")])
+        with ([SLit (lit "<" ++ e_tag d)] ++ (SLit (id_class_html d) :: attrs_segs d) ++ [SLit (lit ">")]).
       eapply Run_trans; [exact R1|]. eapply Run_trans; [exact R2|exact R3]. }
+    match goal with |- exists m', Run ind m st m' _ (?X ++ ?Y ++ ?Z ++ ?W) /\ _ =>
+      replace (X ++ Y ++ Z ++ W) with ((X ++ Y ++ Z) ++ W) by (rewrite <- !app_assoc; reflexivity) end.
     destruct (e_selfclosing d); cbn [fst snd].
     + exists true. rewrite app_nil_r. split; [exact R4|reflexivity].
     + fold (only_newline ch).
@@ -411,17 +522,35 @@ Proof.
 Qed.
 
 (** on a static tree the segments spell its HTML *)
+Lemma eval_app rho a b : eval_segs rho (a ++ b) = eval_segs rho a ++ eval_segs rho b.
+Proof. unfold eval_segs. rewrite map_app, concat_app. reflexivity. Qed.
+
+Lemma eval_attr_static rho a : static_attr a -> eval_segs rho (attr_segs a) = attr_html a.
+Proof.
+  intros [_ Hv]. unfold attr_segs, attr_html. destruct (a_value a) as [|v0 v] eqn:E.
+  - cbn. rewrite app_nil_r. reflexivity.
+  - destruct Hv as [Hv|(Hb & Hd & _)]; [discriminate|]. rewrite Hb, Hd. cbn. rewrite app_nil_r, <- !app_assoc. reflexivity.
+Qed.
+
+Lemma eval_attrs_static rho l : Forall (fun kv : bytes * attribute => static_attr (snd kv)) l ->
+  eval_segs rho (List.concat (map (fun kv => attr_segs (snd kv)) l)) = List.concat (map (fun kv => attr_html (snd kv)) l).
+Proof.
+  induction 1 as [|kv l Hkv _ IH]; [reflexivity|]. cbn [map List.concat]. rewrite eval_app, IH, (eval_attr_static rho _ Hkv). reflexivity.
+Qed.
+
 Lemma eval_static rho n : static_node n -> eval_segs rho (segs_of n) = html_node n.
 Proof.
   induction n as [k ch IH] using node_ind2. intro Hs. cbn [static_node] in Hs. cbn [segs_of html_node]. rewrite segs_kids_eq, html_kids_eq.
   destruct k; try contradiction; try reflexivity.
-  - destruct Hs as [_ Hch]. apply static_all_eq in Hch.
+  - destruct Hs as [Hd Hch]. apply static_all_eq in Hch.
     assert (Hk : eval_segs rho (segs_list ch) = html_list ch).
-    { unfold segs_list, html_list, eval_segs. clear - IH Hch. induction IH as [|c r Hc _ IHr]; [reflexivity|].
-      inversion Hch; subst. cbn [map List.concat]. rewrite map_app, concat_app. unfold eval_segs in Hc. rewrite Hc by assumption. rewrite IHr by assumption. reflexivity. }
-    unfold eval_segs in *. cbn [app map List.concat]. unfold elem_open_html, attrs_html.
-    destruct (e_selfclosing d); cbn [map List.concat app]; [rewrite !app_nil_r, <- !app_assoc; reflexivity|].
-    rewrite map_app, concat_app. destruct (only_newline ch); cbn [map List.concat app]; rewrite ?Hk, ?app_nil_r, <- ?app_assoc; reflexivity.
+    { unfold segs_list, html_list. clear - IH Hch. induction IH as [|c r Hc _ IHr]; [reflexivity|].
+      inversion Hch; subst. cbn [map List.concat]. rewrite eval_app, Hc, IHr by assumption. reflexivity. }
+    destruct Hd as (_ & _ & _ & _ & _ & Hat & _).
+    rewrite !eval_app. unfold attrs_segs. rewrite (eval_attrs_static rho _ Hat). unfold elem_open_html, id_class_html.
+    destruct (e_selfclosing d).
+    + cbn. rewrite !app_nil_r, <- !app_assoc. reflexivity.
+    + rewrite eval_app. destruct (only_newline ch); [|rewrite Hk]; cbn; rewrite ?app_nil_r, <- ?app_assoc; reflexivity.
   - cbn. rewrite app_nil_r. reflexivity.
   - destruct Hs as (_ & Hd & _). rewrite Hd. cbn. rewrite app_nil_r. reflexivity.
 Qed.
